@@ -387,6 +387,10 @@ func (t *Transaction) Insert(op *ovsdb.Operation) (ovsdb.OperationResult, *updat
 		return ovsdb.ResultFromError(err), nil
 	}
 
+	// a row inserted and deleted earlier in this transaction is back: the
+	// operations that follow see it again
+	delete(t.DeletedRows, op.UUID)
+
 	result := ovsdb.OperationResult{
 		UUID: ovsdb.UUID{GoUUID: op.UUID},
 	}
